@@ -782,6 +782,9 @@ func (ev *cenv) call(e *CExpr) *Val {
 		case "ite":
 			c := ev.evalBool(args[0])
 			a, b := ev.eval(args[1]), ev.eval(args[2])
+			if isMissing(a) || isMissing(b) {
+				return missingVal()
+			}
 			return E.iteVal(c, a, b)
 		case "istype":
 			x := ev.eval(args[0])
@@ -815,11 +818,27 @@ func (ev *cenv) call(e *CExpr) *Val {
 				return x
 			}
 			return &Val{T: T, S: x.S, Sort: x.Sort}
+		case "callpos":
+			// position of the k-th call with this label in the path's call log (-1: no such call)
+			label := args[0].String()
+			k := ev.constInt(args[1])
+			n := 0
+			if ev.st != nil {
+				for pi, c := range ev.st.log {
+					if c.Label == label || strings.HasSuffix(c.Label, "."+label) {
+						if n == k {
+							return intVal(intLit(int64(pi)))
+						}
+						n++
+					}
+				}
+			}
+			return intVal("(- 1)")
 		case "aftercall":
 			evs := ev.events(args[0])
 			k := ev.constInt(args[1])
 			if k >= len(evs) {
-				return ev.unknownBool()
+				return missingVal()
 			}
 			sub := *ev
 			sub.heap = evs[k].HeapAfter
@@ -829,7 +848,7 @@ func (ev *cenv) call(e *CExpr) *Val {
 			evs := ev.events(args[0])
 			k := ev.constInt(args[1])
 			if k >= len(evs) {
-				return ev.unknownBool()
+				return missingVal()
 			}
 			sub := *ev
 			sub.heap = evs[k].Heap
